@@ -168,7 +168,7 @@ theorem inner2_inv {M x y b g r : Nat} (hM : 1 < M) (inv : TSInv M x y b g r) (h
     {c2 : Nat × Int → Bool} {b2 : Nat × Int → Option ρ × (Nat × Int)}
     (hc2 : ∀ t ge, c2 (t, ge) = decide (ge > (0 : Int)))
     (hb2 : ∀ t ge, b2 (t, ge) = (none, (Go.fe.square M t, ge - 1))) :
-    Go.whileFuel 80 c2 b2 (g, ((Go.u64sub (Go.u64sub r (ordLog M (r + 1) b 0)) 1 : Nat) : Int)) =
+    Go.whileFuel 80 c2 b2 (g, (let w : Nat := Go.u64sub (Go.u64sub r (ordLog M (r + 1) b 0)) 1; if w < 9223372036854775808 then ((w : Nat) : Int) else ((w : Nat) : Int) - 18446744073709551616)) =
       (false, none, (sqPow M (r - ordLog M (r + 1) b 0 - 1) g, 0)) := by
   have hlt := (ordLog_exact hM inv).1
   have h1 : Go.u64sub r (ordLog M (r + 1) b 0) = r - ordLog M (r + 1) b 0 :=
@@ -176,6 +176,8 @@ theorem inner2_inv {M x y b g r : Nat} (hM : 1 < M) (inv : TSInv M x y b g r) (h
   have h2 : Go.u64sub (r - ordLog M (r + 1) b 0) 1 = r - ordLog M (r + 1) b 0 - 1 :=
     u64sub_small (by omega) (by norm_num; omega)
   rw [h1, h2]
+  dsimp only
+  rw [if_pos (by omega)]
   exact inner2 hc2 hb2 _ 80 g (by omega)
 
 end sqrt
